@@ -23,10 +23,25 @@ GOOD = UNSTABLE + [b'x = 1\n', b'def f(a):\n    return a\n', b'import os\nimport
 BAD = [b'def (:\n', b'\xff\xfe\x00bad', b'x = (\n', b'\x00']
 
 
-def api_of(src):
+VALUE_OPTIONS = ('--output', '-o', '--preserve-locals', '--preserve-globals')
+
+
+def kw_of_args(args):
+    """the minify() keyword arguments the documented options in `args` stand for (the options the tree runs use)"""
+    kw = {}
+    for i, a in enumerate(args):
+        if a == '--rename-globals':
+            kw['rename_globals'] = True
+        elif a in ('--preserve-locals', '--preserve-globals') and i + 1 < len(args):
+            key = a[2:].replace('-', '_')
+            kw.setdefault(key, []).extend(n.strip() for n in args[i + 1].split(',') if n.strip())
+    return kw
+
+
+def api_of(src, kw=None):
     import python_minifier
     try:
-        out = python_minifier.minify(src, filename='x').encode('utf-8')
+        out = python_minifier.minify(src, filename='x', **(kw or {})).encode('utf-8')
     except Exception:
         return None
     return out
@@ -58,6 +73,8 @@ def real_tree_run(ctx, spec, args):
             for a in it:
                 if a in ('--output', '-o'):
                     outfile = next(it, None)
+                elif a in VALUE_OPTIONS:
+                    next(it, None)
                 elif not a.startswith('-'):
                     pos_args.append(a)
             for a in pos_args:
@@ -74,6 +91,7 @@ def real_tree_run(ctx, spec, args):
         r = clirun.run_cli(args, d)
         post = clirun.snapshot(d)
     # expected: walk the visit list, stop at the first failure
+    kw = kw_of_args(args)
     problems = []
     reached = set()
     failed = False
@@ -89,7 +107,7 @@ def real_tree_run(ctx, spec, args):
         if cur is None:
             failed = True
             break
-        out = api_of(cur)
+        out = api_of(cur, kw)
         if out is None:
             failed = True
             break
@@ -108,7 +126,7 @@ def real_tree_run(ctx, spec, args):
             src = pre.get(real[0]) if real else None
             ok_vals = [None, src]
             if src is not None:
-                a1 = api_of(src)
+                a1 = api_of(src, kw)
                 if a1 is not None and len(a1) <= len(src):
                     ok_vals = [a1]
                 elif a1 is not None:
@@ -120,7 +138,7 @@ def real_tree_run(ctx, spec, args):
             continue
         allowed = [was]
         if was is not None:
-            a1 = api_of(was)
+            a1 = api_of(was, kw)
             if a1 is not None and len(a1) <= len(was):
                 allowed.append(a1)
         if now not in allowed:
@@ -234,6 +252,17 @@ def real_trees(ctx, n):
         ([('t/real.py', 'file', u)], ['-i', 't', 't/real.py', 't']),
         ([('t/q/real.py', 'file', u), ('t/ldir', 'symlink', 'q')], ['-i', 't']),
         ([('t/q/real.py', 'file', u), ('s/ldir', 'symlink', '../t/q')], ['-i', 's', 't']),
+    ]
+    # options that carry a value apply to every file of the run, not only to the first one
+    keep = b'def compute(first_value, second_value):\n    keep_me = first_value + second_value\n    other_local = keep_me * 2\n    return keep_me + other_local + first_value\n'
+    glob = b'exported_thing = 1\ninternal_thing = exported_thing + 1\nprint(exported_thing, internal_thing, internal_thing)\n'
+    many = [('t/a.py', 'file', keep), ('t/b.py', 'file', keep + b'print(compute(1, 2))\n'), ('t/c/d.py', 'file', glob + keep), ('t/e.py', 'file', glob)]
+    sym_specs += [
+        (many, ['-i', 't', '--preserve-locals', 'keep_me']),
+        (many, ['--preserve-locals', 'keep_me,first_value', '--in-place', 't/a.py', 't/b.py', 't/c/d.py']),
+        (many, ['-i', 't', '--rename-globals', '--preserve-globals', 'exported_thing']),
+        (many, ['-i', 't/e.py', 't/c/d.py', 't/a.py', '--rename-globals', '--preserve-globals', 'exported_thing,compute', '--preserve-locals', 'other_local']),
+        (many, ['t/c/d.py', '--rename-globals', '--preserve-globals', 'exported_thing', '--output', 'out.py']),
     ]
     for spec, args in sym_specs:
         v = real_tree_run(ctx, spec, args)
